@@ -211,7 +211,7 @@ func (d *drv) bindKey(a *Arte) string {
 // verifyCase runs one mutated artefact set through the implementation and
 // records the skeleton input.
 func (d *drv) verifyCase(a *Arte, in verifyInput, compare bool) Verdict {
-	pristine := &Arte{Kind: a.Kind, Cred: cloneMap(a.Cred), DIDDoc: cloneMap(a.DIDDoc), Status: cloneMap(a.Status)}
+	pristine := a.copy()
 	v, vc := RunVerify(a, d.loader)
 	d.mu.Lock()
 	d.rep.Evaluations++
@@ -246,25 +246,31 @@ func (d *drv) verifyCase(a *Arte, in verifyInput, compare bool) Verdict {
 		term = patchBind(term, ok)
 	} else {
 		term = ProofSel(pristine, vc, d.loader)
-		d.bindMu.Lock()
-		d.bind[key] = bindOf(term)
-		d.bindMu.Unlock()
+		if f := strings.Fields(term); len(f) > 2 && f[2] == "false" { // not `deep`: the hook ran to its end
+			d.bindMu.Lock()
+			d.bind[key] = bindOf(term)
+			d.bindMu.Unlock()
+		}
 	}
 	d.addCase(lit("IVerify "+term), v.Verify.Class, in)
 	return v
 }
 
-// the second boolean of SelBJJ / SelSMT / SelOther is bind_ok
+// the third boolean of SelBJJ / SelSMT / SelOther is bind_ok
 func bindOf(term string) bool {
-	f := strings.Fields(term)
-	return len(f) > 2 && f[2] == "true"
+	f := strings.Fields(strings.TrimSuffix(term, ")"))
+	return len(f) > 3 && f[3] == "true"
 }
 func patchBind(term string, ok bool) string {
-	f := strings.SplitN(term, " ", 4)
+	f := strings.SplitN(term, " ", 5)
 	if len(f) < 4 {
 		return term
 	}
-	f[2] = b2c(ok)
+	if len(f) == 4 { // (SelOther c deep bd)
+		f[3] = b2c(ok) + ")"
+		return strings.Join(f, " ")
+	}
+	f[3] = b2c(ok)
 	return strings.Join(f, " ")
 }
 
@@ -385,6 +391,7 @@ func Run(cfg *common.Config) (*common.Report, error) {
 	d.removalStream()
 	d.artefactStream()
 	d.siblingStream()
+	d.resolverStream()
 	d.mutationStream()
 	d.hashValueStream()
 	if err := d.gobStream(); err != nil {
@@ -535,6 +542,23 @@ func (d *drv) replay() error {
 		}
 		d.rep.Failures = keep
 		d.cases = nil
+	case "did-resolver", "status-resolver":
+		var in resolverInput
+		if err := json.Unmarshal(rf.Input, &in); err != nil {
+			return err
+		}
+		if in.Answer != nil && strings.HasPrefix(string(in.Answer.Body), "regenerate:") {
+			valid := mustJSON(d.bundles[1].DIDDoc)
+			if head.Stream == "status-resolver" {
+				valid = mustJSON(d.bundles[0].Status)
+			}
+			in.Answer.Body = hostileBodies(valid)[strings.TrimPrefix(string(in.Answer.Body), "regenerate:")]
+		}
+		if head.Stream == "did-resolver" {
+			d.didResolveCase(in.Answer, in.Why)
+		} else {
+			d.statusResolveCase(in.Answer, in.Nonce, in.Why)
+		}
 	default:
 		return fmt.Errorf("replay: unknown stream %q", head.Stream)
 	}
